@@ -14,7 +14,15 @@ def check_theorems(ctx):
     conf = os.path.join(lib.COQ, 'Makefile.conf')
     known = os.path.exists(conf) and 'Sort/SortModel.v' in open(conf).read() and 'Properties/Properties_C16.v' in open(conf).read()
     if known:
-        return ctx.check_theorems()
+        ok = ctx.check_theorems()
+        stale = (not ok) and 'No rule to make target' in (getattr(ctx, 'coq_log', '') or '') and not getattr(ctx, 'broken', {}).get('files')
+        if not stale:
+            return ok
+        # coq/Makefile is stale with respect to some OTHER area's files (renamed / removed while agents work concurrently):
+        # check this property's files directly instead
+        ctx.notes.append('coq/Makefile stale (No rule to make target ...): Properties_C16 checked with coqc directly')
+        ctx.obligations -= len(ctx.theorem_names('Properties_C16.v'))
+        ctx.broken = {}
     mod = 'Properties_C16'
     names = ctx.theorem_names(mod + '.v')
     ctx.obligations += len(names)
